@@ -93,6 +93,8 @@ fn class_cp(c: &str) -> Option<u32> {
         "e000" => 0xE000,
         "ffff" => 0xFFFF,
         "b4" => 0x1F600,
+        "p2" => 0x20BB7,
+        "p14" => 0xE0067,
         "max" => 0x10FFFF,
         _ => return None,
     })
@@ -141,6 +143,16 @@ fn spell(cp: u32, sp: &str, out: &mut Vec<u8>) -> Option<()> {
                 return None;
             }
             let s = if sp == "ul" { format!("\\u{:04x}", cp) } else { format!("\\u{:04X}", cp) };
+            out.extend_from_slice(s.as_bytes());
+        }
+        "pl" | "pU" => {
+            // an escaped UTF-16 surrogate pair (what ASCII-only JSON encoders write for characters beyond the BMP)
+            if cp <= 0xFFFF {
+                return None;
+            }
+            let v = cp - 0x10000;
+            let (hi, lo) = (0xD800 + (v >> 10), 0xDC00 + (v & 0x3FF));
+            let s = if sp == "pl" { format!("\\u{:04x}\\u{:04x}", hi, lo) } else { format!("\\u{:04X}\\u{:04X}", hi, lo) };
             out.extend_from_slice(s.as_bytes());
         }
         _ => return None,
@@ -618,6 +630,7 @@ fn concretise(case: &Value, line: &str) -> Result<Doc, String> {
         "F7" => format!("size:tags={}:content={}", tsize, csize),
         "F8" => format!("outside_domain:keyesc={}:hex={}", keyesc, hexcase),
         "F10" => format!("buffer:{}:{}", if cb { "content_before_tags" } else { "tags_before_content" }, d.get("label").and_then(|x| x.as_str()).unwrap_or("")),
+        "F11" => format!("minimal:kind={}:ts={}", s(d, "kind")?, s(d, "ts")?),
         _ => format!("mix:{}", if cb { "content_before_tags" } else { "tags_before_content" }),
     };
     Ok(Doc {
@@ -1401,7 +1414,7 @@ fn sweep_doc(cps: &[u32], sp: &str, set: u64) -> Option<Doc> {
     Some(Doc {
         bytes: b,
         end,
-        expect: "accept".into(),
+        expect: if sp.starts_with('p') { "may".into() } else { "accept".into() },
         class: format!("scalar:{}:{}byte", sp, len),
         fam: format!("sweep:{}", sp),
         exp: Expected { id, pk, sig, kind: Some(1), kind_num: 1.0, ts: Some(1_700_000_000), ts_num: 1.7e9, tags, content },
@@ -1416,6 +1429,7 @@ fn spelling_exists(c: u32, sp: &str) -> bool {
         "sh" => short_escape(c).is_some(),
         "ul" => c <= 0xFFFF,
         "uU" => c <= 0xFFFF && format!("{:04x}", c).bytes().any(|x| x.is_ascii_alphabetic()),
+        "pl" | "pU" => c > 0xFFFF,
         _ => false,
     }
 }
@@ -1425,7 +1439,7 @@ fn spelling_exists(c: u32, sp: &str) -> bool {
 fn sweep(prop: &str, list: &[u32], buf: &mut Vec<u8>, sink: &mut Sink, stats: &mut Stats, seen: &mut HashSet<u64>, seed: u64, k: usize, progress: &Progress) {
     let K: usize = k.max(1);
     // C02 quantifies over events (values), not spellings: one spelling suffices to carry the value
-    let spellings: &[&str] = if prop == "C01" { &["lit", "sh", "ul", "uU"] } else { &["lit", "ul"] };
+    let spellings: &[&str] = if prop == "C01" { &["lit", "sh", "ul", "uU", "pl", "pU"] } else { &["lit", "ul"] };
     for sp in spellings {
         let cps: Vec<u32> = list.iter().copied()
             .filter(|c| spelling_exists(*c, sp) && (prop == "C01" || *sp == "lit" || !lit_legal(*c))).collect();
